@@ -41,7 +41,8 @@ _LOCALS_CACHE: dict = {}
 
 
 def _locals_of(fn: ast.AST) -> frozenset:
-    """Names bound inside the function other than its parameters (assignment, loop, with, comprehension targets)."""
+    """Names of the function's own scope: parameters (except the receiver) and everything bound inside (assignment, loop,
+    with, comprehension targets)."""
     k = id(fn)
     if k not in _LOCALS_CACHE:
         params = set()
@@ -49,7 +50,9 @@ def _locals_of(fn: ast.AST) -> frozenset:
         for x in list(a.posonlyargs) + list(a.args) + list(a.kwonlyargs) + [y for y in (a.vararg, a.kwarg) if y is not None]:
             params.add(x.arg)
         bound = {n.id for n in ast.walk(fn) if isinstance(n, ast.Name) and isinstance(n.ctx, (ast.Store, ast.Del))}
-        _LOCALS_CACHE[k] = (fn, frozenset(bound - params))   # fn kept alive so that id() stays unique
+        # parameters too: a block extracted into a helper turns a parameter of the operation into a local of the helper
+        # (and back when inlined); the receiver name stays
+        _LOCALS_CACHE[k] = (fn, frozenset((bound | params) - {"self", "cls"}))   # fn kept alive so that id() stays unique
     return _LOCALS_CACHE[k][1]
 
 
